@@ -31,8 +31,8 @@ tiers: Dict[str, Dict[str, Any]] = {
 }
 
 LOCS = ["plain", "deep", "space", "relative", "in_snippets"]
-HISTORIES = ["absent", "empty", "other", "longer", "crlf", "cr", "same", "space_tail"]
-SNIPPET_VARIANTS = ["min", "min", "extra_valid", "invalid2", "invalid3"]
+HISTORIES = ["absent", "empty", "other", "longer", "crlf", "cr", "same", "space_tail", "binary"]
+SNIPPET_VARIANTS = ["min", "min", "extra_valid", "invalid2", "invalid3", "invalid_siblings"]
 
 _CASES: Dict[str, List[dict]] = {}
 
@@ -77,7 +77,7 @@ def describe() -> dict:
             "3 (quick) / 12 (thorough) fresh interpreters that differ in PYTHONHASHSEED, heap "
             "junk, snippets listing order, output-dir location (plain/deep/space+unicode/"
             "relative/beneath the snippets dir), output-dir history (absent/empty/foreign files/same-named files that are longer, "
-            "identical, or equal up to CRLF / CR / trailing blanks) and position of the case in the process; compared: rc, stdout up to the "
+            "identical, equal up to CRLF / CR / trailing blanks, or not UTF-8) and position of the case in the process; compared: rc, stdout up to the "
             "output path, stderr, sha256 of every file the run wrote; one evaluation = one execution of a case in one interpreter. distinct = distinct "
             "cases whose results were compared across >= 2 interpreters."
         ),
@@ -135,7 +135,13 @@ def _case_snippets(case: dict) -> Dict[str, Any]:
         sn["bad key one.txt"] = "x"
         sn["9starts_with_digit.txt"] = "y"
         sn["nested/also bad.txt"] = "z"
-        if v == "invalid3":
+    elif v == "invalid_siblings":
+        # invalid files spread over sibling directories at two levels
+        for d in ("alpha", "beta", "gamma", "delta/one", "delta/two"):
+            sn[f"{d}/bad key.txt"] = "x"
+            sn[f"{d}/ok.txt"] = "fine"
+        sn["zeta/not_utf8.txt"] = b"\xff\xfe"
+    if v == "invalid3":
             sn["not_utf8.txt"] = b"\xff\xfe\xfd"
             sn["nested/not_utf8_either.txt"] = b"ok \xc3\x28"
     return sn
@@ -196,7 +202,7 @@ def child_main(spec_path: str) -> int:
                 repo.write_tree(out_abs, {"leftover.txt": "left over\n" * 50,
                                           "src/leftover.cpp": "// x\n", "schema.json": "{" * 9000,
                                           "schema.xsd": "<" * 9000})
-            elif hist in ("longer", "crlf", "cr", "same", "space_tail"):
+            elif hist in ("longer", "crlf", "cr", "same", "space_tail", "binary"):
                 # same-named files from an "earlier generation": longer, or equal up to line
                 # endings / trailing blanks (a checkout with autocrlf, an editor), or identical
                 scratch = sb.path("out", "scratch")
@@ -213,6 +219,8 @@ def child_main(spec_path: str) -> int:
                         data = data.replace(b"\r\n", b"\n").replace(b"\n", b"\r")
                     elif hist == "space_tail":
                         data = data.replace(b"\n", b" \n") + b"\n"
+                    elif hist == "binary":
+                        data = b"\xff\xfe\x00\x81 stale binary \xc3\x28" * 200
                     repo.write_tree(out_abs, {rel: data})
                 shutil.rmtree(scratch)
             if loc == "relative":
